@@ -96,7 +96,7 @@ def precond (op : Op) (a : Args) (pool : Pool) : Except ErrClass Unit :=
   | .ctorGs => do
       bad (a.atopol == .c && a.closurePoint) .invalidArgument
       bad (!a.emptyGs && !a.hasPoint) .invalidArgument
-  | .ctorFromNNC => bad a.notClosed .invalidArgument
+  | .ctorFromNNC => .ok ()          -- C_Polyhedron(const NNC_Polyhedron&) builds the topological closure
   | .addConstraint | .addConstraints => do
       bad (r.topol == .c && a.strict) .invalidArgument
       bad (r.dim < a.adim) .invalidArgument
